@@ -33,7 +33,7 @@ func genConc(g *G, prog *Program, kinds []string, maxWorkers, maxOps int) {
 		ws = append(ws, ops)
 	}
 	prog.Aux = map[string]interface{}{"workers": ws, "intensity": 32 + g.uni(200, "intensity"), "warm": g.pct("warm") < 70}
-	if prog.Cfg.Async != nil && g.pct("crashprelude") < 35 {
+	if x := g.pct("crashprelude"); (prog.Cfg.Async != nil && x < 35) || (prog.Cfg.Async == nil && x < 15) {
 		// the workers start on a handle opened on a copy of the directory taken while writes
 		// were pending: whatever state a crashed process leaves, no call may block on it
 		prog.Aux["crashPrelude"] = true
@@ -44,7 +44,7 @@ func genConc(g *G, prog *Program, kinds []string, maxWorkers, maxOps int) {
 // crashPrelude swaps the handle for one opened on a copy of the directory as it is right now
 // (the copy lives inside the root, so Teardown removes it; the old handle is closed at once).
 func crashPrelude(e *Env, prog *Program) {
-	if on, _ := prog.Aux["crashPrelude"].(bool); !on || e.cfg.Async == nil {
+	if on, _ := prog.Aux["crashPrelude"].(bool); !on {
 		return
 	}
 	snap := filepath.Join(e.root, ".snap")
@@ -64,6 +64,18 @@ func crashPrelude(e *Env, prog *Program) {
 		return nil
 	})
 	e.db.Close()
+	// the crashed process had also begun to rewrite some objects: their temporary files are
+	// still there (killed between creating the file and renaming it)
+	suffix := e.cfg.Ext
+	if e.cfg.Compress {
+		suffix += ".gz"
+	}
+	cdir := strings.Replace(e.collDir(), e.root, snap, 1)
+	for i, id := range e.m.live {
+		if i%2 == 0 && i < 8 {
+			os.WriteFile(filepath.Join(cdir, "."+id+suffix+".tmp"), []byte("{\"half"), 0600)
+		}
+	}
 	e.db = sod.Open(snap)
 	e.flag("workers-start-on-a-crash-state")
 }
@@ -82,7 +94,7 @@ func TestC09(t *testing.T) {
 		t.Skip("needs the instrumented build")
 	}
 	st := statsFor("C09")
-	st.Rule = "a sequential prefix builds state, then 2-4 workers x 1-5 calls drawn from ALL public entry points (Get, GetByUUID, Exist, Count, All, AssignAll, AssignIndex, Search + And/Or + Len/Collect/One/Delete, InsertOrUpdate, Many, Bulk, Delete, DeleteAll, FlushAll, FlushAllAndCommit, Commit, Control, Schema, Create, Repair) in sync, cached and async configurations (flusher running on a 50x scaled clock). Each program runs twice on the copy whose sync.RWMutex/Mutex are wrapped: (1) single-threaded with the lock monitor: no read re-acquisition of a lock the goroutine already holds in read mode (deadlocks as soon as a writer queues), no acquisition under its own write lock, no cycle in the global acquisition-order graph; a re-entrant read is then CONFIRMED by re-running with a writer queued between the two acquisitions and observing that the call never returns; (2) concurrently with scheduling perturbation at every lock/sleep site under a progress watchdog: a hang is declared only when every unfinished worker and flusher sits in a lock acquisition on two stack samples 1.5 s apart. Settings switches through Create (async off/on, cache toggle), a second collection and Repair are worker ops; after the concurrent phase the final-consistency invariant of C08 is checked too. Evidence reports which entry points were executed. 35 % of the async programs start their workers on a handle opened on a copy of the directory taken while writes were pending (whatever a crashed process leaves, no call may block on it); InsertOrUpdateBulk is fed through an unbuffered channel by a producer that calls Count / GetByUUID on the same handle between two sends. TestC09StorageGone: with 1-100 async writes pending (threshold and timeout out of reach, so only API calls flush) every file-system mutation fails from a generated point on; a generated series of calls (FlushAll, FlushAllAndCommit, Commit, writes, deletes, Repair, Create, reads, Control) and finally Close run under a 10 s watchdog each: they may fail, they must return. Non-trivial: >= 1 enumerating call (All, AssignAll, search on an unindexed path, DeleteAll, Count) together with >= 1 writer, or a running flusher. Distinct by program hash."
+	st.Rule = "a sequential prefix builds state, then 2-4 workers x 1-5 calls drawn from ALL public entry points (Get, GetByUUID, Exist, Count, All, AssignAll, AssignIndex, Search + And/Or + Len/Collect/One/Delete, InsertOrUpdate, Many, Bulk, Delete, DeleteAll, FlushAll, FlushAllAndCommit, Commit, Control, Schema, Create, Repair) in sync, cached and async configurations (flusher running on a 50x scaled clock). Each program runs twice on the copy whose sync.RWMutex/Mutex are wrapped: (1) single-threaded with the lock monitor: no read re-acquisition of a lock the goroutine already holds in read mode (deadlocks as soon as a writer queues), no acquisition under its own write lock, no cycle in the global acquisition-order graph; a re-entrant read is then CONFIRMED by re-running with a writer queued between the two acquisitions and observing that the call never returns; (2) concurrently with scheduling perturbation at every lock/sleep site under a progress watchdog: a hang is declared only when every unfinished worker and flusher sits in a lock acquisition on two stack samples 1.5 s apart. Settings switches through Create (async off/on, cache toggle), a second collection and Repair are worker ops; after the concurrent phase the final-consistency invariant of C08 is checked too. Evidence reports which entry points were executed. 35 % of the async and 15 % of the sync programs start their workers on a handle opened on a copy of the directory taken while writes were pending, with leftover temporary files of some stored objects (whatever a crashed process leaves, no call may block on it); InsertOrUpdateBulk is fed through an unbuffered channel by a producer that calls Count / GetByUUID on the same handle between two sends. TestC09StorageGone: with 1-100 async writes pending (threshold and timeout out of reach, so only API calls flush) every file-system mutation fails from a generated point on; a generated series of calls (FlushAll, FlushAllAndCommit, Commit, writes, deletes, Repair, Create, reads, Control) and finally Close run under a 10 s watchdog each: they may fail, they must return. Non-trivial: >= 1 enumerating call (All, AssignAll, search on an unindexed path, DeleteAll, Count) together with >= 1 writer, or a running flusher. Distinct by program hash."
 	st.Assumptions = append(baseAssumptions(), "user Transform/Validate hooks return", "interleavings are sampled; the lock monitor is order-insensitive but only sees call paths that some generated program executes")
 	prof := c09Profile()
 	rapid.Check(t, func(rt *rapid.T) {
@@ -187,7 +199,6 @@ func caseC09(t TB, prog *Program) {
 	e.db.Create(&Other{}, sod.DefaultSchema)
 	e.Run()
 	crashed, _ := prog.Aux["crashPrelude"].(bool)
-	crashed = crashed && e.cfg.Async != nil
 	crashPrelude(e, prog)
 	known := append([]string(nil), e.m.live...)
 	var wg sync.WaitGroup
